@@ -884,6 +884,10 @@ class Models:
             return list(v.items)
         if isinstance(v, TermV) and v.items is not None:
             return [TupleV([e, x]) for e, x in v.items]
+        if type(v).__name__ == "IterV":
+            rest = v.seq[v.pos:]
+            v.pos = len(v.seq)
+            return rest
         if isinstance(v, (ListV, OpaqueV, TermV, GlobalMapV)):
             return None
         if isinstance(v, StrV):
